@@ -13,10 +13,15 @@ pub mod c08;
 pub mod c09;
 pub mod c10;
 pub mod c11;
+pub mod c12;
+pub mod c13;
+pub mod c14;
+pub mod c15;
+pub mod c16;
 
 use crate::engine::{json, Case, Run};
 
-pub const ALL: [&str; 11] = ["C01", "C02", "C03", "C04", "C05", "C06", "C07", "C08", "C09", "C10", "C11"];
+pub const ALL: [&str; 16] = ["C01", "C02", "C03", "C04", "C05", "C06", "C07", "C08", "C09", "C10", "C11", "C12", "C13", "C14", "C15", "C16"];
 
 pub fn known(id: &str) -> bool {
     ALL.contains(&id)
@@ -35,6 +40,11 @@ pub fn run(run: &Run) {
         "C09" => c09::run(run),
         "C10" => c10::run(run),
         "C11" => c11::run(run),
+        "C12" => c12::run(run),
+        "C13" => c13::run(run),
+        "C14" => c14::run(run),
+        "C15" => c15::run(run),
+        "C16" => c16::run(run),
         _ => unreachable!(),
     }
 }
@@ -53,6 +63,11 @@ pub fn replay_case(prop: &str, case: &Case) -> Result<Result<(), (String, String
         "C09" => c09::replay(case),
         "C10" => c10::replay(case),
         "C11" => c11::replay(case),
+        "C12" => c12::replay(case),
+        "C13" => c13::replay(case),
+        "C14" => c14::replay(case),
+        "C15" => c15::replay(case),
+        "C16" => c16::replay(case),
         _ => Err(format!("unknown property {}", prop)),
     }
 }
